@@ -648,7 +648,9 @@ func containmentCase(rt *rapid.T, sc *scenario) {
 	runtime.ReadMemStats(&m0)
 	t0 := time.Now()
 	var tBody time.Time
+	var wg sync.WaitGroup // garbage clients and bad-upstream requests
 	defer func() {
+		wg.Wait() // also when the case is abandoned early: nothing of it may run into the next case
 		tBody = time.Now()
 		defer func() {
 			if os.Getenv("VERIF_C08_DEBUG") != "" {
@@ -740,7 +742,6 @@ func containmentCase(rt *rapid.T, sc *scenario) {
 	}
 
 	// garbage clients
-	var wg sync.WaitGroup
 	var outcomes sync.Map
 	var running int32
 	for ci, conns := range sc.Clients {
